@@ -90,6 +90,9 @@ def gen_case(rng, idx, sdir):
         for i in range(n):
             p = gen.gen_prop(rng, "%s%d" % (prefix, i), hostile=0.1, cards=False, tuples=False)
             p["dependency"] = p["dependency_value"] = None
+            if rng.random() < 0.1:
+                # a Property that was created without a name: its id serves as name
+                p["id"] = p["name"] = str(uuid.UUID(int=rng.getrandbits(128), version=4))
             out.append(p)
         return out
 
